@@ -505,6 +505,26 @@ def fam_class_attrs(r, n):
     return lines
 
 
+def fam_dynamic_attrs(r, n):
+    """Classes whose attributes are set dynamically (setattr with a computed name): the end-of-run
+    attribute pass exempts them - and must keep judging every other class of the invocation."""
+    kind = r.below(4)
+    cls = r.choice(["Settings", "Options", "Registry", "Bag", "ZConfig", "AaState"]) + "_%d" % n
+    if kind == 0:
+        return ["from typing import Dict", "", "class %s:" % cls, "    def load(self, pairs: Dict[str, object]) -> None:", "        for key, value in pairs.items():", "            setattr(self, key, value)",
+                "    def show(self) -> None:", "        print(self.verbose_%d, self.%s)" % (n, r.choice(["colour", "size", "weight"])), ""]
+    if kind == 1:
+        return ["import argparse", "from typing import List", "", "def fill_%d(ns: argparse.Namespace, names: List[str]) -> None:" % n, "    for nm in names:", "        setattr(ns, nm, %d)" % n,
+                "    print(ns.verbose, ns.%s)" % r.choice(["colour", "size", "weight"]), ""]
+    if kind == 2:
+        return ["class %s:" % cls, "    def __init__(self, **kwargs: object) -> None:", "        for key in kwargs:", "            setattr(self, \"opt_\" + key, kwargs[key])", "",
+                "class Sub%s(%s):" % (cls, cls), "    def show(self) -> None:", "        print(self.opt_a, self.%s)" % r.choice(["colour", "depth"]), ""]
+    # a victim of its own: reads of attributes nobody sets, no dynamic setter anywhere in this file
+    own = r.choice(["Report", "Invoice", "MReader", "ZzLast"]) + "_%d" % n
+    a, b = r.sample(["titel", "colour", "size", "weight", "depth", "lenght"], 2)
+    return ["class %s:" % own, "    def __init__(self) -> None:", "        self.title = \"t%d\"" % n, "    def render(self) -> str:", "        print(self.%s)" % a, "        return self.title + str(self.%s)" % b, ""]
+
+
 def fam_local_multi(r, n):
     """Several user-defined classes (address-hashed objects) in one construct: isinstance tuples,
     except tuples, unions, constrained type variables, multiple bases."""
@@ -838,6 +858,7 @@ FAMILIES = {
     "call_order": fam_call_order,
     "local_defs": fam_local_defs,
     "class_attrs": fam_class_attrs,
+    "dynamic_attrs": fam_dynamic_attrs,
     "generic_protocol": fam_generic_protocol,
     "recursive_protocol": fam_recursive_protocol,
     "overloads": fam_overloads,
